@@ -172,6 +172,47 @@ func (vc *VC) finish(top *Frame) {
 	if len(top.rets) == 0 {
 		return
 	}
+	if vc.con != nil && vc.con.PerReturn && len(top.rets) > 1 {
+		// postconditions are checked at each return separately (small path conditions); the merged state below
+		// serves the frame conditions and the replay only
+		results := fn.Signature.Results()
+		for k, r := range top.rets {
+			st := r.st.clone()
+			for o := range st.objs {
+				if st.objs[o].T != "" {
+					vc.syncOut(st, o)
+				}
+			}
+			extra := map[string]SV{}
+			for i := 0; i < results.Len(); i++ {
+				extra[fmt.Sprintf("result.%d", i)] = r.vals[i]
+				if n := results.At(i).Name(); n != "" && n != "_" {
+					if _, clash := top.params[n]; !clash {
+						extra[n] = r.vals[i]
+					}
+				}
+			}
+			if results.Len() == 1 {
+				extra["result"] = r.vals[0]
+			}
+			var earlier []string
+			for i, e := range vc.con.Ensures {
+				env := top.env(st, vc.entry, extra)
+				name := vc.oblName("ensures", fmt.Sprintf("%s@ret%d", ensName(e, i), k))
+				t, err := env.eval(e.Expr)
+				if err != nil {
+					vc.failObl(name, e, err)
+					continue
+				}
+				goal := t
+				if e.Cumulative && len(earlier) > 0 {
+					goal = fmt.Sprintf("(=> %s %s)", and(earlier...), t)
+				}
+				earlier = append(earlier, t)
+				vc.addObl(&Obl{Name: name, Kind: "ensures", Labels: e.Labels, Pos: clausePos(e), PC: r.pc, Goal: goal, Clause: e.Text, Tier: e.Tier, Isolated: e.Cumulative})
+			}
+		}
+	}
 	var edges []Edge
 	var conds []string
 	for _, r := range top.rets {
@@ -242,7 +283,7 @@ func (vc *VC) finish(top *Frame) {
 		}
 	}
 	pos := vc.eng.fset.Position(fn.Pos())
-	if vc.con != nil {
+	if vc.con != nil && !(vc.con.PerReturn && len(top.rets) > 1) {
 		var earlier []string
 		for i, e := range vc.con.Ensures {
 			env := top.env(st, vc.entry, extra)
